@@ -207,7 +207,7 @@ def random_case(rng):
             break
     cfg = {"mode": rng.choice(["ansi", "ansi", "ansi", "plain", "quiet"]),
            "values": rng.choice([["-", "%", "|", "/"]] * 3 + [["1", "2"], ["1", "2", "3"], ["-", "%", "|", "/", "+", "*", "~"]]), "w": 40, "interval": rng.choice([100, 100, 100, 50, 200, 0]),
-           "start": list(rng.choice(["AAAA", "AAAA", "AAAA", ""])), "end": list("END"), "body": body, "next": [], "prev": [],
+           "start": list(rng.choice(["AAAA", "AAAA", "AAAA", ""])), "end": list(rng.choice(["END", "END", "END", "END", ""])), "body": body, "next": [], "prev": [],
            "via": rng.choice(["output", "output", "io"]), "other": rng.choice(["plain", "ansi", "verbose", "quiet"])}
     sched = []
     # a random walk over thread ids and clock advances; elements that are not enabled when their turn comes are
@@ -223,7 +223,7 @@ def random_case(rng):
         second = dict(cfg, start=list(cfg["end"]) if rng.random() < 0.6 else list("AAAA"),
                       end=list(cfg["end"]) if rng.random() < 0.6 else list("FIN"),
                       body=[{"k": "set", "m": list(rng.choice(MSGS))}] if rng.random() < 0.3 else [],
-                      prev=[list(x) for x in MSGS] + [list("AAAA"), list("END"), list("FIN")])
+                      prev=[list(x) for x in MSGS] + [list("AAAA"), list("END"), list("FIN"), []])
         cfg["next"] = [second]
     return {"cfg": cfg, "schedule": sched}
 
@@ -366,7 +366,7 @@ def random_manual_case(rng):
         else:
             # often with the message of the last start(): the next start() of the same object then repeats a frame
             last = [o["m"] for o in ops if o["op"] == "start"]
-            m = last[-1] if last and rng.random() < 0.5 else list(rng.choice(MSGS))
+            m = last[-1] if last and rng.random() < 0.5 else list(rng.choice(MSGS + [""]))
             ops.append({"op": "finish", "dt": dt, "m": list(m), "reset": rng.random() < 0.5})
             if rng.random() < 0.6:
                 ops.append({"op": "start", "dt": rng.choice([0, 10, 100]), "m": list(m)})
@@ -436,7 +436,7 @@ def run(ctx):
         "NoMix: every terminal row is blank or exactly one frame ' v m' (v an indicator value, m one of the messages of the "
         "run); a frame with a message that has meanwhile been replaced is not a mixture",
         "EndFrame: when the body does not raise, auto() returns normally and the last non-blank row shows a frame with the end "
-        "message (any indicator value; ' m' on a not decorated output) with nothing drawn behind it; on a quiet output nothing is "
+        "message (any indicator value; ' m' on a not decorated output; an empty end message is an end message: ' v ') with nothing drawn behind it; on a quiet output nothing is "
         "shown and only the normal return is required.  Joined / Terminates are claimed on every kind of output",
         "Joined: at the moment the with-statement is left (normally or by the body's exception) no thread created by the "
         "indicator is alive; the completion phase of every schedule is fair (round-robin), so not leaving within the budget "
